@@ -499,6 +499,9 @@ def check_inspection(crate, insp, local_inspectors=()):
                 effects.add(x)
     if not effects:
         return True, "no dependent effect", 0
+    why = filtered_on_tag(crate, body, insp.base)
+    if why is not None:
+        return True, why, 0
     start = binding_loop_header(body, insp)
     if start is None:
         start = innermost_loop_header(body, insp.bb)
@@ -526,6 +529,47 @@ def check_inspection(crate, insp, local_inspectors=()):
         fs = ", ".join("%s=%s" % (render(a), v) for a, v in sorted(bad[1], key=str)) or "none"
         return False, "effect at %s reachable with tag facts {%s}" % (body.loc(bad[0]), fs), n
     return True, "%d effect block(s) guarded" % len(effects), n
+
+
+def filtered_on_tag(crate, body, base):
+    """the token is an item of `tokens.iter()[.enumerate()].filter(|..(sep, _)..| sep.is_empty() [&& ..])`: the filter lets
+    only untagged tokens through, whatever is tested afterwards.  The closure must answer true only under
+    `<field 0 of its item>.is_empty()`."""
+    from . import flow
+    hit = flow.backward(body, base, lambda z: z[0] == "call" and last_seg(z[1]) == "filter" and "Iterator" in z[1] and len(z[2]) == 2,
+                        through_containers=False)
+    if hit is None:
+        return None
+    cpath = None
+    for sub in mir.subexprs(body.expand_vars(strip_sites(hit[2][1]))):
+        if sub[0] == "agg" and isinstance(sub[1], str) and sub[1].startswith("closure:"):
+            cpath = sub[1][len("closure:"):].rstrip("()")
+    cb = crate.fn(cpath) if cpath else None
+    if cb is None or cb.arg_count != 2:
+        return None
+
+    def tag_test(e):
+        e = cb.expand_vars(strip_sites(e))
+        if not (e[0] == "call" and last_seg(e[1]) == "is_empty" and e[2]):
+            return False
+        x = deep_peel(e[2][0])
+        return x[0] == "field" and x[1] == 0 and mir.root_local_expr(x) == 2
+
+    defs = cb.defs.get(0, [])
+    if not defs:
+        return None
+    from .rules.c02 import dom_facts
+    for bi, si in defs:
+        if si == "T":
+            e = strip_sites(cb.call_expr(bi))
+        else:
+            e = strip_sites(cb.def_expr(bi, si))
+        if mir.const_bool(e) is False or tag_test(e):
+            continue
+        if any(v is True and tag_test(a) for a, v in dom_facts(cb, bi)):
+            continue
+        return None
+    return "the token comes out of a filter that passes untagged tokens only (%s)" % cpath
 
 
 ACCESSORS = ("index_mut", "get_mut", "iter_mut", "last_mut", "first_mut", "deref_mut", "as_mut_slice")
